@@ -531,8 +531,11 @@ def corpus_file(job):
                             spec1 = [(a, 0) for a in tables["v1pu"]]
                         elif letter in tables["v1pyl"]:
                             spec1 = [(a, 0) for a in tables["v1py"]]
+                        elif all(r1.find_atom(a) is not None for a in tables["v1pu"]):
+                            # unknown one-letter code: the base is a purine when it carries N9 and C4
+                            spec1 = [(a, 0) for a in tables["v1pu"]]
                         else:
-                            spec1 = None
+                            spec1 = [(a, 0) for a in tables["v1py"]]
                         ch = r1.chi
                         rec["chi1"] = None if ch != ch else float(ch)
                         cc = r1.chi_class
@@ -563,6 +566,43 @@ def median(xs):
     return xs[n // 2] if n % 2 else 0.5 * (xs[n // 2 - 1] + xs[n // 2])
 
 
+def pdb_variants(path, outdir, rng):
+    """two re-labelled copies of a PDB file (same atoms): (a) purines A/G renamed to the unknown residue 'N' (one-letter
+    code outside ACGUT), (b) runs of 2-3 consecutive residues sharing chain and number, told apart by insertion codes"""
+    lines = open(path).read().splitlines()
+    out = []
+    # (a)
+    a = []
+    for ln in lines:
+        if ln.startswith(("ATOM", "HETATM")) and ln[17:20].strip() in ("A", "G"):
+            ln = ln[:17] + "  N" + ln[20:]
+        a.append(ln)
+    pa = os.path.join(outdir, "unknown-purines-" + os.path.basename(path))
+    open(pa, "w").write("\n".join(a) + "\n")
+    out.append(pa)
+    # (b)
+    b = []
+    state = {}
+    key, new = None, None
+    for ln in lines:
+        if ln.startswith(("ATOM", "HETATM", "TER")) and len(ln) > 26 and ln[22:26].strip():
+            ch = ln[21]
+            k = (ch, ln[22:27])
+            if k != key:
+                key = k
+                num, pos, run = state.get(ch, (rng.randint(1, 30), 0, 0))
+                if pos >= run:
+                    num, pos, run = num + 1, 0, rng.choice([1, 2, 2, 3])
+                new = "%4d%s" % (num, [" ", "A", "B"][pos])
+                state[ch] = (num, pos + 1, run)
+            ln = ln[:22] + new + ln[27:]
+        b.append(ln)
+    pb = os.path.join(outdir, "icode-siblings-" + os.path.basename(path))
+    open(pb, "w").write("\n".join(b) + "\n")
+    out.append(pb)
+    return out
+
+
 def run_corpus(ctx, res, tables):
     quick_files = ["1A1T_1_B.cif", "1ehz-assembly-1.cif"]
     if ctx.quick:
@@ -572,6 +612,19 @@ def run_corpus(ctx, res, tables):
                        glob.glob(os.path.join(TESTS, "*.cif.gz")))
         files = [f for f in files if "modified" not in f]
     files = [f for f in files if os.path.exists(f)]
+    import shutil
+    import tempfile
+    vdir = tempfile.mkdtemp(prefix="c18-variants-")
+    try:
+        for base in ["1ATO.pdb"] + ([] if ctx.quick else ["4qln.pdb"]):
+            if os.path.exists(os.path.join(TESTS, base)):
+                files += pdb_variants(os.path.join(TESTS, base), vdir, ctx.rng)
+        return _run_corpus(ctx, res, tables, files, quick_files)
+    finally:
+        shutil.rmtree(vdir, ignore_errors=True)
+
+
+def _run_corpus(ctx, res, tables, files, quick_files):
     jobs = [(f, tables) for f in files]
     if len(jobs) >= 4:
         import multiprocessing as mp
